@@ -35,7 +35,7 @@ def run(tier, seed, replay):
     design = dict(W=W, D=D, Reqs='{"r1","r2"}', Procs='{"p1"}' if not big else '{"p1","p2"}',
                   Skews="{-31,-30,0,30,31}",
                   Deltas="{1,2,%d,%d,%d,%d}" % (3 * D, W - 3, W, W + 3),
-                  MaxAdv=3, MaxPres=4 if not big else 4, Kinds='{"good","forged"}', EMIT="")
+                  MaxAdv=3, MaxPres=4 if not big else 4, Kinds='{"good","forged"}', EMIT="", EXTRA_INV="", ReqSeq='<<"r1","r2">>')
     r = vlib.tlc(SPEC, "MCTcpReplay", "MCTcpReplay.cfg", design, workers=16, timeout=3000 if big else 600, edges=False,
                  heap="24g" if big else "8g")
     v.coverage["states"] = r.distinct
@@ -57,7 +57,8 @@ def run(tier, seed, replay):
     #     every edge, quick a seeded sample of that cover
     small = dict(W=W, D=D, Reqs='{"r1","r2"}', Procs='{"p1","p2"}', Skews="{%d}" % D if not big else "{-31,30}",
                  Deltas="{1,%d,%d}" % (W - 1, W + 3),
-                 MaxAdv=2, MaxPres=3, Kinds='{"good","forged"}' if not big else '{"good","forged","badtype"}', EMIT="ACTION_CONSTRAINT Emit")
+                 MaxAdv=2, MaxPres=3, Kinds='{"good","forged"}' if not big else '{"good","forged","badtype"}', EMIT="ACTION_CONSTRAINT Emit",
+                 EXTRA_INV="", ReqSeq='<<"r1","r2">>')
     g = vlib.tlc(SPEC, "MCTcpReplay", "MCTcpReplay.cfg", small, workers=8, timeout=900, edges=True)
     graph = vlib.Graph(g)
     paths, left = graph.cover(seed=seed, max_len=14, max_paths=None if big else 3500)
@@ -75,6 +76,24 @@ def run(tier, seed, replay):
     walks = sg.random_walks(2500 if not big else 20000, 22, seed=seed)
     behs += [sg.behaviour(p) for p in walks]
     v.coverage["simulated_walks"] = len(walks)
+
+    # (4) test purposes: corners that neither the small graph nor random walks reach; TLC's counterexample to the negated
+    #     purpose is the witness behaviour (requests are interchangeable: minted in a fixed order, ACTION_CONSTRAINT Canon)
+    tp = dict(W=W, D=D, Reqs='{"r1","r2","r3","r4"}', ReqSeq='<<"r1","r2","r3","r4">>', Procs='{"p1","p2"}', Skews="{%d}" % D,
+              Deltas="{3,%d}" % (W - 3), MaxAdv=2, MaxPres=5, Kinds='{"good"}')
+    purposes = [("pool order is not expiry order when an expired head is pruned", "TPTcpReplay", "TPTcpReplay.cfg", tp, "NotPurpose")]
+    tpm = dict(small, EMIT="ACTION_CONSTRAINT Canon", Skews="{%d}" % D, Deltas="{1,%d,%d}" % (W - 1, W), MaxAdv=3, MaxPres=4, Kinds='{"good"}')
+    purposes.append(("presented again one tick before its pool entry expires", "MCTcpReplay", "MCTcpReplay.cfg", dict(tpm, EXTRA_INV="NotPurposeBoundary"), "NotPurposeBoundary"))
+    purposes.append(("two presenters of one request between clock sample and Add", "MCTcpReplay", "MCTcpReplay.cfg", dict(tpm, EXTRA_INV="NotPurposeRace"), "NotPurposeRace"))
+    witnesses = []
+    for title, mod, cfgf, consts, inv in purposes:
+        w = vlib.tlc(SPEC, mod, cfgf, consts, workers=8, timeout=1500, edges=False)
+        if w.violation != inv:
+            raise vlib.Broken("test purpose '%s': expected TLC to reach it (%s), got %s\n%s" % (title, inv, w.violation, w.out[-1200:]))
+        wb = vlib.cex_behaviour(w.trace)
+        behs.append(wb)
+        witnesses.append({"purpose": title, "steps": len(wb["steps"]), "states_searched": w.distinct})
+    v.coverage["test_purposes"] = witnesses
 
     outs = common.run_parallel(binary, "TestReplay", [{"behaviours": c, "seed": seed + i} for i, c in enumerate(common.chunks(behs, 16))],
                                1200)
